@@ -109,17 +109,12 @@ Definition url_case (cab : bool) (base_path code_file : str) (debug_file did_raw
 (* [base_case]: the server URL is "http://host/" ++ suffix (HttpSymbolSupplier::new appends '/'
    unless it ends with one; Url::parse then runs the same path parser); the request for the plain
    lookup path [rel] *)
-Definition base_case (suffix rel : str) : Z * str :=
-  let raw := if last_is is_slash suffix then suffix else
-             match suffix with [] => [] | _ => suffix ++ [47] end in
-  let inp := filter (fun c => negb (tab_or_nl c)) (rev (drop_while c0_or_space (rev raw))) in
-  let base_path := path_steps [47] (split_seps (path_part inp)) in
-  predict base_path rel.
+From RM Require Import C17.UrlFull.
+Definition base_case (suffix rel : str) : Z * str := predict (server_base_path suffix) rel.
 
 (* ---- full reference resolution (C17/UrlFull.v), compared with the real url crate on raw references ----------
    [resolve_case]: (0, path, []) = the base's scheme and authority with this path; (1, scheme, authority text) =
    another authority; (2, scheme, rest) = a file: / non-special URL *)
-From RM Require Import C17.UrlFull.
 Definition resolve_case (base_scheme base_path reference : str) : Z * str * str :=
   match url_resolve base_scheme base_path reference with
   | JSame q => (0, q, [])
